@@ -124,3 +124,58 @@ def _crosscheck_cases():
 
 
 CROSSCHECK = _crosscheck_cases
+
+
+# ---- BedCreator.records (C11: one BED record per switch error, between the two variants it lies between)
+# The generator yields, in increasing order of i, exactly the adjacent pairs (i, i+1) on which the two phasings' switch encodings differ -- i.e. where
+# "equal / different alleles at i and i+1" is not the same in both --, as (chromosome, 1-based position i, 1-based position i+1, annotation).  The count
+# of records is therefore the Hamming distance of the switch encodings = the diploid switch error count.
+R.declare_class("BedCreator", {"_chromosome": INT, "_annotation": INT})
+BED = TUPLE(INT, INT, INT, INT)
+_DIFF = "((phasing0[{i}] == phasing0[{i} + 1]) != (phasing1[{i}] == phasing1[{i} + 1]))"
+_NDIFF = z3.Function("BED_NDIFF", z3.IntSort(), z3.IntSort())
+_ITH = z3.Function("BED_ITH", z3.IntSort(), z3.IntSort())
+
+
+@R.spec
+def BEDDEFS(eng, st):
+    """counting functions of the switch-error positions (defined by recurrence for the given pair of phasings): NDIFF(k) = number of i < k that differ,
+    ITH(c) = the c-th such i"""
+    p0, p1 = st.env["phasing0"], st.env["phasing1"]
+    k = z3.Int(fresh_name("k"))
+    d = (p0.arr[k] == p0.arr[k + 1]) != (p1.arr[k] == p1.arr[k + 1])
+    return z3.And(_NDIFF(0) == 0,
+                  z3.ForAll([k], z3.Implies(z3.And(0 <= k, k + 1 < p0.len), z3.And(_NDIFF(k + 1) == _NDIFF(k) + z3.If(d, 1, 0), _NDIFF(k) >= 0,
+                                                                               z3.Implies(d, _ITH(_NDIFF(k)) == k))), patterns=[_NDIFF(k)]))
+
+
+@R.spec
+def ndiff(eng, st, k):
+    return _NDIFF(to_z3(k))
+
+
+@R.spec
+def ith(eng, st, c):
+    return _ITH(to_z3(c))
+
+
+_YIELDED = ("len(__yielded__) == ndiff({k}) and forall(c, implies(0 <= c and c < ndiff({k}), __yielded__[c][0] == self._chromosome and "
+            "__yielded__[c][1] == positions[ith(c)] + 1 and __yielded__[c][2] == positions[ith(c) + 1] + 1 and __yielded__[c][3] == self._annotation))")
+R.contract(
+    "BedCreator.records", params={"self": REF("BedCreator"), "phasing0": STR, "phasing1": STR, "positions": LIST(INT)},
+    requires=[("same-length", "len(phasing0) == len(phasing1) and len(phasing1) == len(positions)"), ("definitions", "BEDDEFS()")],
+    ensures=[("one-record-per-switch-error-in-order", _YIELDED.format(k="(len(phasing0) - 1 if len(phasing0) > 0 else 0)"))],
+    locals={"sw0": INT, "sw1": INT, "i": INT},
+    loops={0: dict(index="bi", inv=[("records-so-far", _YIELDED.format(k="bi"))])},
+    extra={"yields": BED, "assume_asserts": [0]},
+    props=["C11"])
+
+
+def canary_bed():
+    import copy
+    c = copy.copy(R.contracts["BedCreator.records"])
+    c.ensures = [("wrong", "len(__yielded__) == (len(phasing0) - 1 if len(phasing0) > 0 else 0)")]      # "one record per adjacent pair"
+    return c
+
+
+R.canaries.append(("compare.py:canary#bed-record-for-every-pair", canary_bed))
